@@ -230,6 +230,18 @@ def run_block(c, NP, NL, KMAX, predict_type, mssdc_jac, all_to_done, nsweeps, in
     for ev in STATE['comm']:
         if ev[0] == 'published' and ev[3]:
             viol.append(('send-unconsumed', (ev[1], ev[2], ev[4])))
+    # (4a') every published value is consumed by the successor before the step publishes on that level again (and before the block ends)
+    pending = {}
+    for ev in STATE['comm']:
+        if ev[0] == 'published' and not ev[3]:
+            key = (ev[1], ev[2])
+            if key in pending:
+                viol.append(('send-unconsumed', (ev[1], ev[2], pending[key], 'published again before it was consumed')))
+            pending[key] = ev[4]
+        elif ev[0] == 'recv':
+            pending.pop((ev[1] - 1, ev[2]), None)
+    for key, stage in pending.items():
+        viol.append(('send-unconsumed', (key[0], key[1], stage, 'never consumed')))
     # (4b) in the stages that exchange and then sweep (fine, down, up, check) a step receives on the level it has just sent on
     lastcall = {}
     for ev in STATE['comm']:
